@@ -247,7 +247,7 @@ func RunSocks(x *Ctx) {
 		c.Input = hexTrunc(fedAll, 1<<14)
 	}
 	x.R.Count(c.Prefix()+"/input-size", SizeClass(len(fedAll)))
-	good := x.FinishHandshake(ec, call, HsOpts{ConsumedBound: B("socks-consumed"), ExpectSuccess: isValid && c.Cut != "reset"})
+	good := x.FinishHandshake(ec, call, HsOpts{ConsumedBound: B("socks-consumed"), Kind: "socks", ExpectSuccess: isValid && c.Cut != "reset"})
 	x.R.Count(c.Prefix()+"/outcome", x.Outcome)
 	x.R.Sample(3, map[string]interface{}{"case": c.Key(), "input": desc, "outcome": x.Outcome, "log": LogSummary(ec.Log())})
 	if good {
